@@ -15,3 +15,20 @@ pub proof fn axiom_canonical_reads_back(res: Relation, v: RelV)
     requires res.0.text_spec() == rel_text(v)
     ensures acc(res) == v
 {}
+/// ASSUMED (the same reading-back fact at entry level): an entry handle whose text is the ' | '-join of the canonical
+/// texts of vals has alternatives that report vals
+#[verifier::external_body]
+pub proof fn axiom_canonical_entry_reads_back(res: Entry, vals: Seq<RelV>)
+    requires res.0.text_spec() == entry_text(vals)
+    ensures accs(rels(res)) == vals
+{}
+/// `Display for Substvar`: some text of the node (only used as a sort key)
+impl VxDisplay for Substvar {
+    uninterp spec fn display_spec(&self) -> Seq<char>;
+}
+/// ASSUMED: two live vectors of pointer-sized handles together hold at most usize::MAX elements (they occupy disjoint
+/// memory of one address space), so `enumerate()` over their chain cannot overflow its counter
+#[verifier::external_body]
+pub proof fn axiom_handle_vecs_fit(a: &Vec<Entry>, b: &Vec<Substvar>)
+    ensures a@.len() + b@.len() <= usize::MAX
+{}
